@@ -157,7 +157,7 @@ def is_uaf_message(call, p, board):
 
 class C03(F.PropCheck):
     pid = 'C03'; gen_groups = ['SrpcTable', 'C03Consts']; prop_file = 'Properties_C03'
-    IN = {'CFG': 0, 'GATE': 1, 'SRV': 2, 'ADV': 3}
+    IN = {'CFG': 0, 'GATE': 1, 'SRV': 2, 'ADV': 3, 'SKEW': 4}
     OUT = {0: 'EV', 1: 'V', 2: 'MW'}
     quick_cases = 900; thorough_cases = 12000
     trusted_extra = ['C03 driver harness/drv/c03.c: -Wl,--wrap=srpc_getdata observer, table snapshots by memcmp, router script choosing the dev/devcfg binary',
@@ -301,6 +301,22 @@ class C03(F.PropCheck):
             call, p, t = self.gen_message(rng, b); tags |= set(t)
             evs.append(('SRV', [call, rr], p)); rr += 1
             if rng.random() < 0.45: evs.append(('ADV', [rng.choice([50000, 300000, 1200000, 3000000])], b''))
+        # countdown timers: arm channel Y, let the clock run (with or without timer callbacks), then a timed command on
+        # another channel X evaluates Y's slot inside the handler (refresh of Time2Left[Y], or Y's switch-back on expiry)
+        plain = [r[1] for r in b.relays[2 * len(b.rs):]]
+        if len(plain) >= 2 and rng.random() < 0.35:
+            tags.add('timer_scenario')
+            for _ in range(rng.randrange(1, 4)):
+                y, x = rng.sample(plain, 2)
+                evs.append(('SRV', [C['CALL_SET_VALUE'], rr], m_newvalue(7, y, rng.choice([40, 120, 500, 5000]), [rng.choice([1, 1, 0])]))); rr += 1
+                if rng.random() < 0.4: evs.append(('ADV', [rng.choice([20000, 70000, 300000])], b''))
+                if rng.random() < 0.7: evs.append(('SKEW', [rng.choice([10000, 60000, 200000, 600000, 6000000])], b''))
+                for _k in range(rng.randrange(1, 3)):
+                    if rng.random() < 0.5: evs.append(('SRV', [C['CALL_SET_VALUE'], rr], m_newvalue(8, x, rng.choice([300, 2000, 0]), [rng.choice([1, 1, 0])])))
+                    else: evs.append(('SRV', [C['CALL_GROUP_SET_VALUE'], rr], m_group(5, 9, x, rng.choice([300, 2000]), [1])))
+                    rr += 1
+                    if rng.random() < 0.3: evs.append(('SKEW', [rng.choice([60000, 400000])], b''))
+                if rng.random() < 0.6: evs.append(('ADV', [rng.choice([100000, 1200000, 3000000])], b''))
         # at most one message that takes the device off line, at the end
         if stop < 0.05:
             url = bytes([1, 1]) + b'10.0.0.9'.ljust(101, b'\0') + struct.pack('<i', 80) + b'/fw.bin'.ljust(101, b'\0')
@@ -323,13 +339,16 @@ class C03(F.PropCheck):
     # ---------------- helpers on traces
     @staticmethod
     def split_events(outs):
-        """[(k, [V tuples], set(cells))]"""
+        """[(k, [V tuples], set(cells), info)]; info: TM {ch: (remaining, target)}, TA {ch: remaining},
+        T2L {i: (old, new)}, PIN {pin: level}, SR {slot: value}"""
         evs = []
         for (k, ints, data) in outs:
-            if k == 'EV': evs.append([ints[0] if ints else -1, [], set()])
+            if k == 'EV': evs.append([ints[0] if ints else -1, [], set(), dict(TM={}, TA={}, T2L={}, PIN={}, SR={})])
             elif not evs: continue       # lines of the registration phase
             elif k == 'V': evs[-1][1].append(tuple(ints))
             elif k in ('CH', 'MW'): evs[-1][2].add((ints[0], ints[1]))
+            elif k in ('TM', 'T2L'): evs[-1][3][k][ints[0]] = (ints[1], ints[2])
+            elif k in ('TA', 'PIN', 'SR'): evs[-1][3][k][ints[0]] = ints[1]
         return evs
 
     @staticmethod
@@ -340,7 +359,7 @@ class C03(F.PropCheck):
 
     @staticmethod
     def case_events(case):
-        return [(k, ints, data) for (k, ints, data) in case.evs if k in ('SRV', 'ADV')]
+        return [(k, ints, data) for (k, ints, data) in case.evs if k in ('SRV', 'ADV', 'SKEW')]
 
     # ---------------- monitor (implementation trace vs. the property text; no Coq model involved)
     def monitor(self, case, status, outs):
@@ -356,7 +375,7 @@ class C03(F.PropCheck):
                 what = ' during the time advance of event %d' % k
             return ['memory-safety clause: implementation crashed (%s)%s' % (status, what)]
         named = set()
-        for (k, vs, cells) in tr:
+        for (k, vs, cells, info) in tr:
             if not (0 <= k < len(evs)): continue
             kind, ints, p = evs[k]
             if kind == 'SRV':
@@ -373,7 +392,7 @@ class C03(F.PropCheck):
                         named.add(c)
                         for (t, i) in sorted(cells):
                             own = b.owners(t, i)
-                            if own and c not in own:
+                            if own and c not in own and not self.timer_maintenance(b, t, i, own, info):
                                 v.append('event %d: call %d names channel %d but cell (table %d, index %d) of channel %s changed' % (k, call, c, t, i, sorted(own)))
             elif kind == 'ADV' and b is not None:
                 for (t, i) in sorted(cells):
@@ -381,6 +400,25 @@ class C03(F.PropCheck):
                     if t == 18 and own and not (own & named):
                         v.append('event %d: output pin %d of channel %s changed although no message named that channel' % (k, i, sorted(own)))
         return v[:5]
+
+    @staticmethod
+    def timer_maintenance(b, t, i, own, info):
+        """the change of cell (t, i), owned by channels `own` other than the named one, is the bookkeeping of a countdown
+        timer that was running before the message: its remaining time did not grow, or it expired and the relay took
+        exactly the stored target value"""
+        running = info['TM']; after = info['TA']
+        if t == 14:
+            return i in running and i in info['T2L'] and info['T2L'][i][1] <= info['T2L'][i][0]
+        if t in (11, 18):
+            for y in own:
+                if y not in running or y in after: continue          # only an expired timer switches its relay back
+                target = 1 if running[y][1] else 0
+                for a, r in enumerate(b.relays):
+                    if r[1] != y: continue
+                    if t == 18 and r[0] == i and info['PIN'].get(i) == (target ^ (1 if r[2] & 0x10 else 0)): return True
+                    if t == 11 and a == i and info['SR'].get(i) == target: return True
+            return False
+        return False
 
     # ---------------- model / implementation comparison
     def compare(self, case, mo, io):
@@ -392,7 +430,7 @@ class C03(F.PropCheck):
             if idx >= len(it):
                 return None if offline else 'implementation produced %d of %d events' % (len(it), len(evs))
             if idx >= len(mt): return 'model produced %d of %d events' % (len(mt), len(evs))
-            (k1, mv, mw), (k2, iv, ch) = mt[idx], it[idx]
+            (k1, mv, mw, _i1), (k2, iv, ch, _i2) = mt[idx], it[idx]
             kind, ints, p = evs[idx]
             union |= mw
             if kind == 'SRV':
@@ -404,7 +442,7 @@ class C03(F.PropCheck):
                 call = int(ints[0]); C = consts()
                 if (size_ok(call, p) is True and call in (C['CALL_REGISTER_RESULT'], C['CALL_VERSIONERROR'], C['CALL_FW_URL_RESULT'])) or is_uaf_message(call, p, b):
                     offline = True       # the device disconnects after these: later messages are not delivered
-            else:
+            elif kind == 'ADV':
                 extra = {c for c in ch if c[0] == 18} - union
                 if extra: return 'event %d (time advance): output pins %s changed outside every may-write set so far' % (idx, sorted(extra))
         return None
